@@ -181,6 +181,20 @@ func (e *symEnv) exec(stmts []ast.Stmt, onCall func(*ast.CallExpr), onReturn fun
 				}
 				continue
 			}
+			if call, ok := ast.Unparen(t.Rhs[0]).(*ast.CallExpr); ok {
+				// st := newFrame(storage, offs, size): a private constructor whose body is one literal
+				if cl, argOf := ctorLiteralOf(e.info, call); cl != nil {
+					name, rest, _ := strings.Cut(k, "@")
+					for _, el := range cl.Elts {
+						if kv, ok := el.(*ast.KeyValueExpr); ok {
+							if f, ok := kv.Key.(*ast.Ident); ok {
+								e.vals[name+"."+f.Name+"@"+rest] = e.eval(argOf(kv.Value))
+							}
+						}
+					}
+					continue
+				}
+			}
 			switch t.Tok {
 			case token.ASSIGN, token.DEFINE:
 				e.vals[k] = e.eval(t.Rhs[0])
@@ -379,6 +393,20 @@ func ruleR015(c *Ctx) {
 				if len(vals) == 3 {
 					rOffs, rSize, rStorage, found = vals[roles.offs], vals[roles.size], vals[roles.storage], true
 				}
+			} else if call, ok := ast.Unparen(ret).(*ast.CallExpr); ok {
+				if cl, argOf := ctorLiteralOf(info, call); cl != nil {
+					vals := map[string]lin{}
+					for _, el := range cl.Elts {
+						if kv, ok := el.(*ast.KeyValueExpr); ok {
+							if f, ok := kv.Key.(*ast.Ident); ok {
+								vals[f.Name] = env.eval(argOf(kv.Value))
+							}
+						}
+					}
+					if len(vals) == 3 {
+						rOffs, rSize, rStorage, found = vals[roles.offs], vals[roles.size], vals[roles.storage], true
+					}
+				}
 			}
 			if !found {
 				c.Undecided(key, fd.Pos(), "returned frame not recognised")
@@ -417,14 +445,31 @@ func ruleR015(c *Ctx) {
 		env := &symEnv{info: info, vals: map[string]lin{}}
 		var atLoopOffs, atLoopSize *lin
 		pushesAll := false
+		workKey := rk
 		var ret ast.Expr
 		ok := env.exec(fd.Body.List, nil, func(r *ast.ReturnStmt) {
 			if len(r.Results) == 1 {
 				ret = r.Results[0]
 			}
 		}, func(rs *ast.RangeStmt) {
-			o, okO := env.vals[field(rk, roles.offs)]
-			s, okS := env.vals[field(rk, roles.size)]
+			// the stack that is filled: the receiver (a copy, value receiver) or a local built on the receiver's storage
+			wk := rk
+			if len(rs.Body.List) == 1 {
+				if es, ok := rs.Body.List[0].(*ast.ExprStmt); ok {
+					if call, ok := es.X.(*ast.CallExpr); ok && isCallTo(info, call, a.push) {
+						if sel, _ := ast.Unparen(call.Fun).(*ast.SelectorExpr); sel != nil {
+							if k2, ok := exprKey(info, sel.X); ok && k2 != rk {
+								if st, ok := env.vals[field(k2, roles.storage)]; ok && st.eq(symVar(field(rk, roles.storage))) {
+									wk = k2
+								}
+							}
+						}
+					}
+				}
+			}
+			workKey = wk
+			o, okO := env.vals[field(wk, roles.offs)]
+			s, okS := env.vals[field(wk, roles.size)]
 			if okO {
 				atLoopOffs = &o
 			}
@@ -441,7 +486,7 @@ func ruleR015(c *Ctx) {
 							sel, _ := ast.Unparen(call.Fun).(*ast.SelectorExpr)
 							if sel != nil {
 								recvK, _ := exprKey(info, sel.X)
-								pushesAll = vk == rvk && recvK == rk
+								pushesAll = vk == rvk && recvK == workKey
 							}
 						}
 					}
@@ -461,7 +506,7 @@ func ruleR015(c *Ctx) {
 			if !pushesAll {
 				problems = append(problems, "does not push every argument in order")
 			}
-			if k, _ := exprKey(info, ret); k != rk {
+			if k, _ := exprKey(info, ret); k != workKey {
 				problems = append(problems, "does not return the initialised stack")
 			}
 			if ptr {
@@ -553,6 +598,18 @@ func ruleR015(c *Ctx) {
 			}
 			return true
 		})
+		argOf := func(e ast.Expr) ast.Expr { return e }
+		if cl == nil {
+			// the literal lives in a private constructor: return newFrame(storage, 0, len(v))
+			ast.Inspect(fd.Body, func(n ast.Node) bool {
+				if call, ok := n.(*ast.CallExpr); ok && cl == nil {
+					if l, ao := ctorLiteralOf(info, call); l != nil && a.isStack(info.TypeOf(l)) {
+						cl, argOf = l, ao
+					}
+				}
+				return true
+			})
+		}
 		if cl == nil {
 			c.Undecided(key, fd.Pos(), "no Stack literal")
 			continue
@@ -562,7 +619,7 @@ func ruleR015(c *Ctx) {
 		for _, el := range cl.Elts {
 			if kv, ok := el.(*ast.KeyValueExpr); ok {
 				if f, ok := kv.Key.(*ast.Ident); ok {
-					vals[f.Name] = env.eval(kv.Value)
+					vals[f.Name] = env.eval(argOf(kv.Value))
 				}
 			}
 		}
